@@ -1570,11 +1570,14 @@ void Handler::checkGlobalConstraints() const
 /// @param[in]  value  The value for the argument, empty string if not set.
 /// @since  0.2, 10.04.2016
 void Handler::handleIdentifiedArg( detail::TypedArgBase* hdl,
-                                   const detail::ArgumentKey& key,
+                                   const detail::ArgumentKey& /* key */,
                                    const string& value)
 {
 
-   mConstraints.argumentIdentified( key);
+   // must use the complete key of the argument here, not the key as it was
+   // used on the command line (short or long only, or abbreviated): the
+   // constraints may have been specified with the other form of the key
+   mConstraints.argumentIdentified( hdl->key());
    executeGlobalConstraints( hdl->key());
 
    if (mVerbose)
